@@ -319,3 +319,43 @@ class FsAudit:
 
 
 FS = FsAudit()
+
+
+class ChoiceTap:
+    """Draw-site tap: records the probability vector handed to numpy.random.choice
+    when the generator draws a preference list (C17: the weights *used for drawing*)."""
+
+    def __init__(self):
+        self.installed = False
+        self.on = False
+        self.records = []
+
+    def install(self):
+        if self.installed:
+            return
+        import numpy as np
+        orig = np.random.choice
+        tap = self
+
+        def choice(a, size=None, replace=True, p=None):
+            if tap.on and p is not None:
+                try:
+                    arr = list(a) if hasattr(a, '__len__') else None
+                    if arr is not None and 0 not in [int(x) for x in arr]:
+                        tap.records.append([float(x) for x in p])
+                except Exception:
+                    pass
+            return orig(a, size, replace, p)
+        np.random.choice = choice
+        self.installed = True
+
+    def start(self):
+        self.records = []
+        self.on = True
+
+    def stop(self):
+        self.on = False
+        return list(self.records)
+
+
+CHOICE = ChoiceTap()
